@@ -191,7 +191,8 @@ class C09(PropertyCheck):
         yield from self.edge_cases()
         gens = [self.gen_pad(rng, 1100 * n), self.gen_chunk(rng, 1300 * n), self.gen_masked(rng, 350 * n),
                 self.gen_shift(rng, 400 * n), self.gen_malformed(rng, 175 * n),
-                self.gen_shift_rounding(rng, 150 * n), self.gen_sizes(rng, 120 * n)]
+                self.gen_shift_rounding(rng, 150 * n), self.gen_sizes(rng, 120 * n),
+                self.gen_shapes(rng, 240 * n)]
         if tier != "quick":
             gens.append(self.gen_exhaustive())
         # interleave so that a budget cut does not starve one stream
@@ -459,6 +460,38 @@ class C09(PropertyCheck):
                 c["scalar_prop"] = True
             yield c
 
+    def gen_shapes(self, rng, count):
+        """What each function accepts, as a function of the SHAPES of its arguments only (legal data inside):
+        the documented shapes, and near misses (one dimension too many / too few, a size off by one, the two
+        dimensions swapped, size 1 where broadcasting is / is not documented)."""
+        for i in range(count):
+            target = ("pad", "chunk", "masked", "shift")[i % 4]
+            N, T = rng.randint(1, 3), rng.randint(1, 3)
+            if target == "chunk" and rng.random() < 0.25:
+                N, T = rng.choice([(0, T), (N, 0), (0, 0)])
+            if target == "masked" and rng.random() < 0.25:
+                N, T = rng.choice([(0, T), (N, 0), (1, 1)])
+            xshape = rng.choice([[], [N], [N, T], [N, T], [N, T], [N, T, 2], [N, T, 1, 2]])
+            c = {"fn": "shapes", "target": target, "entry": rng.choice(["functional", "module"]),
+                 "xshape": xshape, "mode": rng.choice(MODES), "N": N, "T": T}
+            good = rng.random() < 0.3
+            c["lens_shape"] = [N] if good else rng.choice([[N], [N + 1], [N, 1], [1, N], [], [max(N - 1, 0)], [1]])
+            if target == "pad":
+                c["pad_shape"] = [2, N] if good else rng.choice(
+                    [[2, N], [2, N], [3, N], [2, N + 1], [N, 2], [2 * N], [2, N, 1], [1, N]])
+            if target == "chunk" and rng.random() < 0.3:
+                c["lens_shape"] = None
+            if target == "masked":
+                d0, d1 = (xshape + [1, 1])[:2]
+                c["mask_shape"] = [d0, d1] if good else rng.choice(
+                    [[d0, d1], [d0, 1], [1, d1], [1, 1], [d0 + 1, d1], [d0, d1 + 1], [d0 + 2, 1], [1, d1 + 2],
+                     [d0], [d0, d1, 1], [d1, d0], [0, d1], [d0, 0]])
+                c["batch_first"] = rng.random() < 0.5
+                del c["lens_shape"]
+            if target == "shift":
+                c["training"] = rng.random() < 0.6
+            yield c
+
     def gen_sizes(self, rng, count):
         """Larger batches / time dimensions than the main streams (plain options)."""
         for i in range(count):
@@ -495,7 +528,7 @@ class C09(PropertyCheck):
                  "pad.replicate_len0", "chunk.x_ndim", "chunk.lens_shape", "chunk.mode", "chunk.reflect_big",
                  "chunk.replicate_len0", "masked.x_ndim", "masked.mask_ndim", "module.mode", "shift.prop_neg",
                  "shift.prop_reflect", "shift.prop_len", "shift.mode", "shift.x_ndim", "shift.lens_shape",
-                 "shift.prop_neg_pair", "shift.prop_reflect_pair"]
+                 "shift.prop_neg_pair", "shift.prop_reflect_pair", "shift.x_ndim_module"]
         for i in range(count):
             kind = kinds[i % len(kinds)]
             fn = kind.split(".")[0]
@@ -503,6 +536,8 @@ class C09(PropertyCheck):
             N, T = c["N"], max(c["T"], 1)
             c["T"] = T
             c["x"] = mk_x(rng, N, T, prod(c["trail"]))
+            if str(c.get("x_layout", "")).startswith("expand"):
+                del c["x_layout"]                   # x was redrawn: not constant along any dimension
             c["malformed"] = kind
             c["lens"] = [rng.randint(1, T) for _ in range(N)]
             c["pad0"] = [0] * N
@@ -543,6 +578,8 @@ class C09(PropertyCheck):
                      or kind == "pad.pad_outer"):
             return self.run_api_malformed(case, torch, Fn, Md)
         fn = case["fn"]
+        if fn == "shapes":
+            return self.run_shapes(case, torch, Fn, Md)
         F = prod(case["trail"])
         N = case["N"]
         vf = value_frac(case)
@@ -717,6 +754,32 @@ class C09(PropertyCheck):
             return finish(obs, snap)
         raise ValueError(f"unknown fn {fn}")
 
+    def run_shapes(self, case, torch, Fn, Md):
+        """legal data in tensors of the case's shapes"""
+        target, mode, N, T = case["target"], case["mode"], case["N"], case["T"]
+        module = case["entry"] == "module"
+        x = torch.arange(1, prod(case["xshape"]) + 1, dtype=torch.float).reshape(case["xshape"])
+        lens = None if case.get("lens_shape") is None else torch.full(case["lens_shape"], min(1, T),
+                                                                     dtype=torch.long)
+        if target == "pad":
+            pad = torch.zeros(case["pad_shape"], dtype=torch.long)
+            out = Md.PadVariable(mode)(x, lens, pad) if module else Fn.pad_variable(x, lens, pad, mode)
+        elif target == "chunk":
+            sl = torch.tensor([[0, min(1, T)]] * N, dtype=torch.long).reshape(N, 2)
+            out = (Md.ChunkBySlices(mode)(x, sl, lens) if module else Fn.chunk_by_slices(x, sl, lens, mode))[0]
+        elif target == "masked":
+            mask = torch.ones(case["mask_shape"], dtype=torch.bool)
+            bf = case["batch_first"]
+            out = (Md.PadMaskedSequence(bf)(x, mask) if module else Fn.pad_masked_sequence(x, mask, bf))[0]
+        else:
+            if module:
+                m = Md.RandomShift(0.5, mode)
+                m.train(case["training"])
+                out = m(x, lens)[0]
+            else:
+                out = Fn.random_shift(x, lens, (0.5, 0.5), mode, 0.0, case["training"])[0]
+        return {"accepted": True, "ndim": out.dim()}
+
     EXPECT = {
         "pad.x_ndim": "ValueError", "pad.pad_outer": "ValueError", "pad.mode": "ValueError",
         "chunk.x_ndim": "RuntimeError", "chunk.mode": "ValueError", "masked.x_ndim": "RuntimeError",
@@ -724,6 +787,7 @@ class C09(PropertyCheck):
         "shift.prop_reflect": "NotImplementedError", "shift.prop_len": "ValueError", "shift.mode": "ValueError",
         "shift.x_ndim": "RuntimeError", "shift.lens_shape": "RuntimeError",
         "shift.prop_neg_pair": "ValueError", "shift.prop_reflect_pair": "NotImplementedError",
+        "shift.x_ndim_module": "RuntimeError",
     }
 
     def run_api_malformed(self, case, torch, Fn, Md):
@@ -733,7 +797,7 @@ class C09(PropertyCheck):
         lens = torch.tensor(case["lens"][:N], dtype=torch.long)
         pad = torch.zeros(2, N, dtype=torch.long)
         sl = torch.tensor([[0, 1]] * N, dtype=torch.long)
-        module = case["entry"] == "module"
+        module = case["entry"] in ("module", "module_parent")
         if kind == "pad.x_ndim":
             Fn.pad_variable(x[:, 0].flatten()[:N], lens, pad)
         elif kind == "pad.pad_outer":
@@ -766,6 +830,10 @@ class C09(PropertyCheck):
             Fn.random_shift(torch.ones(N), lens, (0.5, 0.5), "constant", 0.0)
         elif kind == "shift.lens_shape":
             Fn.random_shift(x, torch.ones(N + 1, dtype=torch.long), (0.5, 0.5), "constant", 0.0)
+        elif kind == "shift.x_ndim_module":
+            m = Md.RandomShift(0.5, "constant")
+            m.train(case["T"] % 2 == 0)
+            m(torch.ones(N), lens)
         else:
             raise AssertionError(kind)
         return {"accepted": True}
@@ -779,8 +847,18 @@ class C09(PropertyCheck):
         if self.is_api(case):
             return None
         fn = case["fn"]
+        if fn == "shapes":
+            return {"op": "c09.shapes", "case": {k: case.get(k) for k in (
+                "target", "mode", "xshape", "lens_shape", "pad_shape", "mask_shape", "batch_first", "training")}}
         F = prod(case["trail"])
-        base = {"value": case["value"], "F": F, "T": case["T"], "x": case["x"]}
+        # the model's cells are integers: a fractional pad value (and the data with it) is scaled by its
+        # denominator; a bool tensor stores value != 0
+        sc = self.scale(case)
+        vm = value_frac(case) * sc
+        if case.get("dtype") == "bool":
+            vm = int(vm != 0)
+        xs = case["x"] if sc == 1 else [[[v * sc for v in fr] for fr in row] for row in case["x"]]
+        base = {"value": int(vm), "F": F, "T": case["T"], "x": xs}
         if fn == "pad":
             return {"op": "c09.pad", "case": dict(base, mode=case["mode"], lens=case["lens"], pad0=case["pad0"],
                                                   pad1=case["pad1"])}
@@ -788,8 +866,14 @@ class C09(PropertyCheck):
             return {"op": "c09.chunk", "case": dict(base, mode=case["mode"], lens=case["lens"],
                                                     slices=case["slices"])}
         if fn == "masked":
-            return {"op": "c09.masked", "case": dict(base, mask=case["mask"], batch_first=case["batch_first"],
-                                                     inner=case["outer_shape"][1])}
+            raw = case["mask"]
+            mv = case.get("mask_var") or ""
+            if mv.startswith("bcast"):
+                # the mask as passed: size 1 along the broadcast dimension
+                raw = [r[:1] for r in raw] if mv.endswith("1") else raw[:1]
+            return {"op": "c09.masked", "case": dict(base, mask=case["mask"], mask_raw=raw,
+                                                     batch_first=case["batch_first"],
+                                                     outer=case["outer_shape"], inner=case["outer_shape"][1])}
         if fn == "shift":
             draws = case["draws"]
             if draws is None:
@@ -803,6 +887,23 @@ class C09(PropertyCheck):
                                                     p1=case["p1"], u0=draws[0], u1=draws[1],
                                                     training=case["training"])}
         raise ValueError(fn)
+
+    @staticmethod
+    def scale(case):
+        return value_frac(case).denominator
+
+    def descale(self, case, model):
+        """undo model_request's scaling, once (compare and predicate receive the same reply object)"""
+        sc = self.scale(case)
+        if sc == 1 or model is None or model.get("_descaled"):
+            return model
+        for part in model.values():
+            if isinstance(part, dict):
+                for k in ("out", "rows"):
+                    if isinstance(part.get(k), list):
+                        part[k] = [[[num(Fraction(v, sc)) for v in fr] for fr in row] for row in part[k]]
+        model["_descaled"] = True
+        return model
 
     # ------------------------------------------------------------------ comparison
     @staticmethod
@@ -852,6 +953,11 @@ class C09(PropertyCheck):
     def compare(self, case, impl, model):
         if model is None:
             return []
+        if case["fn"] == "shapes":
+            got = impl.get("error") or "ok"
+            return [] if got == model["result"] else [f"shapes: impl {got} ({impl.get('message')}), "
+                                                      f"model {model['result']}"]
+        self.descale(case, model)
         if case["fn"] == "shift" and impl.get("rounding_tie"):
             return []
         return self.same(case, impl, model["model"])
@@ -866,34 +972,48 @@ class C09(PropertyCheck):
                     sig = SIG_PROP_PAIR      # the pair form never gets as far as the documented check
                 return [(f"malformed request {case['malformed']}: expected {want}, got {impl}", sig)]
             return []
+        if case["fn"] == "shapes":
+            # the documented shapes are accepted, everything else is refused with the documented class
+            got = impl.get("error") or "ok"
+            if got != model["documented"]:
+                return [(f"{case['target']} with shapes { {k: v for k, v in case.items() if k.endswith('shape')} }"
+                         f": documented {model['documented']}, got {got} ({impl.get('message')})", None)]
+            return []
+        self.descale(case, model)
         spec = model["spec"]
         fn = case["fn"]
         # the machinery itself: model (repaired) must meet the spec wherever the spec speaks
         self.selfcheck(case, model)
-        if spec is None:
-            return []
         fails = []
+        if impl.get("args_changed"):
+            fails.append((f"{fn} modified its argument(s) {impl['args_changed']} in place", None))
+        if spec is None:
+            return fails
         sig = self.signature(case, impl, model)
         if "error" in spec:
             if impl.get("error") != spec["error"]:
                 fails.append((f"illegal request: documented {spec['error']}, got {_short(impl)}", None))
             return fails
         if "error" in impl:
-            if (fn == "shift" and case["entry"] == "module" and impl["error"] == "ValueError"
+            if (fn == "shift" and case["entry"] in ("module", "module_parent") and impl["error"] == "ValueError"
                     and "is not a float" in str(impl.get("message")) and not case.get("scalar_prop")):
                 sig = SIG_PROP_PAIR     # RandomShift.__init__ rejects the documented pair form
             return [(f"{fn} raised {impl['error']} ({impl.get('message')}) on a legal request", sig)]
         N, F = case["N"], prod(case["trail"])
         if fn == "masked":
+            if impl.get("raw_mask_counts") is not None and impl["lens"] == impl["raw_mask_counts"] \
+                    and impl["lens"] != spec["lens"]:
+                sig = SIG_BCAST      # lengths counted on the mask as given, before it is broadcast against x
             if not impl["shape_kept"]:
-                fails.append(("output shape differs from the input shape", None))
+                fails.append((f"output shape {impl.get('shape')} differs from the input shape", None))
+                return fails
             if impl["lens"] != spec["lens"]:
-                fails.append((f"lens {impl['lens']} != counts {spec['lens']}", None))
-            fill = [case["value"]] * F
+                fails.append((f"lens {impl['lens']} != counts {spec['lens']}", sig))
+            fill = [value_obs(case)] * F
             for n, (row, sel) in enumerate(zip(impl["rows"], spec["rows"])):
                 if row != sel + [fill] * (case["T"] - len(sel)):
                     fails.append((f"row {n}: {row} is not the selected elements {sel} followed by the pad value",
-                                  None))
+                                  sig))
             if len(impl["rows"]) != N:
                 fails.append(("batch size changed", None))
             return fails
@@ -904,11 +1024,16 @@ class C09(PropertyCheck):
                 fails.append(("eval mode is not the identity on the data", None))
             if impl["n_draw_calls"]:
                 fails.append(("eval mode drew random numbers", None))
+            if not impl["same_object"]:
+                fails.append(("eval mode does not return its input (documented: out, out_lens = input, in_lens)",
+                              None))
             return fails
         if impl["shape"][0] != N or impl["shape"][2:] != case["trail"]:
             fails.append((f"output shape {impl['shape']} does not keep batch/trailing dims", sig))
         if fn == "shift":
-            fails += self.shift_bounds(case, impl)
+            if impl.get("f32_lens") is not None and impl["lens"] == impl["f32_lens"] != impl.get("exact_lens"):
+                sig = SIG_F32        # the amounts float32 arithmetic gives (prop rounded to float32 first)
+            fails += self.shift_bounds(case, impl, sig)
             if impl.get("rounding_tie"):
                 return fails
         if fn != "pad" and impl["lens"] != spec["lens"]:
@@ -922,7 +1047,7 @@ class C09(PropertyCheck):
                 break
         return fails
 
-    def shift_bounds(self, case, impl):
+    def shift_bounds(self, case, impl, sig=None):
         """draw-free part of the random-shift clause: some (l, r) with 0 <= l <= p0*len, 0 <= r <= p1*len,
         l + r = out_len - len and the original embedded at offset l."""
         fails = []
@@ -939,8 +1064,8 @@ class C09(PropertyCheck):
                     ok = True
                     break
             if tot < 0 or not ok:
-                fails.append((f"row {n}: no split of the {tot} added elements within ({p0}*{L}, {p1}*{L}) embeds "
-                              f"the original sequence unchanged", None))
+                fails.append((f"row {n}: no split of the {tot} added elements within ({float(p0)}*{L}, "
+                              f"{float(p1)}*{L}) embeds the original sequence unchanged", sig))
         return fails
 
     def signature(self, case, impl, model):
@@ -970,7 +1095,7 @@ class C09(PropertyCheck):
         if "error" in m:
             raise AssertionError(f"model raises {m} where the spec has a value")
         if case["fn"] == "masked":
-            fill = [case["value"]] * prod(case["trail"])
+            fill = [value_obs(case)] * prod(case["trail"])
             want = [sel + [fill] * (case["T"] - len(sel)) for sel in spec["rows"]]
             if self.masked_rows(case, m) != want or m["lens"] != spec["lens"]:
                 raise AssertionError("model != spec (masked)")
@@ -1006,7 +1131,7 @@ class C09(PropertyCheck):
     # ------------------------------------------------------------------ evidence helpers
     def nontrivial(self, case, impl):
         fn = case["fn"]
-        if self.is_api(case) or case.get("malformed"):
+        if self.is_api(case) or case.get("malformed") or fn == "shapes":
             return False
         if fn == "pad":
             return any(case["pad0"]) or any(case["pad1"])
@@ -1025,7 +1150,24 @@ class C09(PropertyCheck):
         t = [f"fn={fn}", f"entry={case.get('entry')}"]
         if case.get("malformed"):
             return t + [f"malformed={case['malformed']}"]
-        t += [f"ntrail={len(case['trail'])}", f"dtype={case['dtype']}", f"N={case['N']}"]
+        if fn == "shapes":
+            ok = isinstance(impl, dict) and "error" not in impl
+            return t + [f"shapes.{case['target']}." + ("accepted" if ok else "refused")]
+        t += [f"ntrail={len(case['trail'])}", f"dtype={case['dtype']}", f"N={min(case['N'], 5)}"
+              + ("+" if case["N"] >= 5 else "")]
+        t.append(f"x_layout={case.get('x_layout', 'contig')}")
+        t.append(f"call={case.get('call', 'positional')}")
+        v = value_frac(case)
+        t.append("value=" + ("fractional" if v.denominator != 1 else "0" if v == 0 else "negative" if v < 0
+                             else "positive") + ("(int)" if case.get("value_kind") == "int" else ""))
+        if case.get("idx"):
+            t.append(f"idx={case['idx']['dtype']}/{case['idx']['layout']}")
+        if case.get("stream"):
+            t.append(f"stream={case['stream']}")
+        if case["T"] > 6:
+            t.append("T>6")
+        if isinstance(impl, dict) and impl.get("args_changed"):
+            t.append("args_changed")
         if prod(case["trail"]) == 0:
             t.append("F=0")
         if case["T"] <= 1:
@@ -1057,17 +1199,34 @@ class C09(PropertyCheck):
                     t.append(f"chunk.{case['mode']}.pad>T")
         if fn == "masked":
             t.append(f"masked.batch_first={case['batch_first']}")
+            t.append(f"masked.mask={case.get('mask_var') or 'full'}")
+            flat = [b for r in case["mask"] for b in r]
+            if flat and all(flat):
+                t.append("masked.all_true")
         if fn == "shift":
             t.append(f"shift.training={case['training']}")
-            t.append("shift.draws=" + ("chosen" if case["draws"] else "genuine"))
+            t.append("shift.draws=" + ("chosen" if case["draws"] is not None else "genuine"))
+            if case.get("pre_modes"):
+                t.append("shift.mode_toggled")
             if isinstance(impl, dict) and impl.get("rounding_tie"):
                 t.append("shift.rounding_tie")
+            if isinstance(impl, dict) and impl.get("f32_lens") is not None \
+                    and impl["f32_lens"] != impl.get("exact_lens"):
+                t.append("shift.float32_would_differ")
         return sorted(set(t))
 
     def shrink(self, case):
-        if case.get("malformed") or case["fn"] == "masked":
+        if case.get("malformed") or case["fn"] in ("masked", "shapes"):
             return
         N, T = case["N"], case["T"]
+        # the options that should not matter, back to plain
+        for k in ("x_layout", "idx", "call", "value_kind", "pre_modes", "parent_eval", "stream"):
+            if k in case:
+                yield {q: v for q, v in case.items() if q != k}
+        if case.get("entry") in ("module_parent", "util"):
+            yield dict(case, entry="module" if case["entry"] == "module_parent" else "functional")
+        if value_frac(case).denominator != 1:
+            yield dict(case, value=7)
         per_row = [k for k in ("lens", "pad0", "pad1", "slices") if isinstance(case.get(k), list)]
         # drop one row
         for n in range(N):
@@ -1080,8 +1239,9 @@ class C09(PropertyCheck):
                 yield c
         # no trailing dims
         if case["trail"]:
-            yield dict(case, trail=[], x=[[[(fr + [n * 10 + t])[0]] for t, fr in enumerate(row)]
-                                          for n, row in enumerate(case["x"])])
+            yield dict({q: v for q, v in case.items() if q != "x_layout"}, trail=[],
+                       x=[[[(fr + [n * 10 + t])[0]] for t, fr in enumerate(row)]
+                          for n, row in enumerate(case["x"])])
         # drop the last time step
         if T > 1 and all(l < T for l in (case.get("lens") or [T])):
             yield dict(case, T=T - 1, x=[row[:-1] for row in case["x"]])
@@ -1109,7 +1269,7 @@ class C09(PropertyCheck):
                     if case["fn"] == "pad" and case["mode"] == "reflect":
                         continue
                     yield c
-        if case.get("entry") == "module":
+        if case.get("entry") == "module" and not case.get("pre_modes"):
             yield dict(case, entry="functional")
         if case.get("dtype") != "float32":
             yield dict(case, dtype="float32")
